@@ -219,6 +219,19 @@ impl Transaction {
         }
     }
 
+    /// The Proposition this transaction is minting for a tuple, if it is.
+    ///
+    /// Tuple resolution has to see the transaction's own writes as well
+    /// (§32.1): a tuple an earlier clause of the same block ensured is not in
+    /// the store yet, and a second clause naming it must resolve to that one
+    /// Proposition rather than mint a rival for the same identity (§12.4).
+    pub fn staged_proposition(&self, tuple_key: &str) -> Option<ElementId> {
+        self.staged.iter().find_map(|(id, staged)| match &staged.row {
+            Element::Proposition(row) if staged.is_new && row.tuple_key == tuple_key => Some(*id),
+            _ => None,
+        })
+    }
+
     /// Checks an `EXPECT STATE` guard against an Assertion's lifecycle status.
     ///
     /// Distinct from [`Self::expect_state`], which reads the *engine* state:
